@@ -38,7 +38,24 @@ def high_cc_scenarios(tier):
 NONTRIVIAL = ['cc_above_0.96_day', 'ponded_day', 'mulched_day', 'es_limited_day', 'tr_limited_day']
 
 
+def full_length_soilopt(tier):
+    """Full-length crops on station weather (many small rains: stage-1/stage-2 evaporation transitions) x strategies x expert soil options."""
+    import copy
+
+    for fl in (W.FULL_LENGTH[:2] if tier == "quick" else W.FULL_LENGTH):
+        for irr in ("none", "net80", "smt"):
+            for opt in A.SOILOPT:
+                spec = S.base_spec(
+                    crop={"name": fl["crop"], "planting": fl["planting"], "harvest": None, "scale": None, "kw": {}},
+                    soil={"type": fl["soil"], "dz": None, "kw": dict(A.SOILOPT[opt])},
+                    start=fl["start"], end=fl["end"], weather={"kind": "file", "name": fl["wfile"]})
+                spec["irr"] = copy.deepcopy(A.IRR[irr])
+                spec["iwc"] = S.iwc_for(spec["soil"], "FC")
+                yield {"kind": "spec", "spec": spec, "label": {"full_soilopt": [fl["crop"], irr, opt]}}
+
+
 def scenarios(tier, seed=0):
+    yield from full_length_soilopt(tier)
     menus = dict(A.WATER_MENUS)
     menus["irr"] = menus["irr"] + ["const8wet30"]
     menus["field"] = menus["field"] + ["mulch50"]
@@ -58,7 +75,7 @@ def describe(tier):
     return {
         "rule": "C01's configuration/weather set (with partial wetting and 50 % mulch added to the menus) plus every catalogue crop with "
                 "CCx > 0.96 (scaled" + ("" if tier == "quick" else " and full length, calendar and thermal") + ") under irrigation that lets the "
-                "canopy reach CCx, with and without mulch; sign of every flux column, Es <= EsPot, Tr <= TrPot and the off-season zero "
+                "canopy reach CCx, with and without mulch; full-length Maize/Wheat on station weather x {rainfed, net, threshold} x 7 expert soil-option sets (evaporation-layer geometry, Kex/f_evap, fwcc, REW/CN computation, capillary shape); sign of every flux column, Es <= EsPot, Tr <= TrPot and the off-season zero "
                 "clause are evaluated on every transition. Non-trivial = at least one regime witness hit.",
         "bound": f"config deviations d<={d}; weather deviations <= {1 if tier == 'quick' else 2} days; all 5 calendar crops with CCx>0.96",
         "exhaustive": True,
